@@ -1,4 +1,4 @@
 --------------------------- MODULE MCThreadCoarse ---------------------------
 EXTENDS ThreadCoarse
-Choices == <<{}, {"ActivateEvicted"}>>
+Choices == <<{}, {"ActivateEvicted"}, {"MuxStreamIdRace"}>>
 =============================================================================
